@@ -393,9 +393,9 @@ def analyse(hist, rm: RM, outcome, cfg=None, want=None) -> Analysis:
                         for a, val in attrs.items():
                             if dsid in pending_setdata:
                                 pending_setdata[dsid][(deid, a, src_full)] = val
-        elif kind == "set_event_accepted":
+        elif kind == "set_event_processed":
             _, sid, t = r
-            if t < until:
+            if cfg.get("rt_factor") is not None and isinstance(t, int) and t < until:
                 dem[sid].setdefault(rm.lift(sid, t), []).append(("event",))
 
     A.steps = steps
